@@ -270,6 +270,11 @@ func contractType(name string) types.Type {
 	if strings.HasPrefix(name, "*") {
 		return types.NewPointer(contractType(name[1:]))
 	}
+	if strings.HasPrefix(name, "map[") {
+		if i := strings.Index(name, "]"); i > 0 {
+			return types.NewMap(contractType(name[4:i]), contractType(name[i+1:]))
+		}
+	}
 	if q, n, ok := strings.Cut(name, "."); ok && curPkg != nil {
 		for _, imp := range curPkg.Imports() {
 			if imp.Name() == q {
@@ -645,7 +650,9 @@ func (fr *Frame) tr(e ast.Expr, env *Env) Val {
 			for i, a := range x.Args {
 				v := fr.tr(a, env)
 				if i < len(si.def.Params) {
-					if st, ok := contractType(si.def.Params[i][1]).(*seqType); ok {
+					var pt types.Type
+					withPkg(si.def.Pkg, func() { pt = contractType(si.def.Params[i][1]) })
+					if st, ok := pt.(*seqType); ok {
 						v = fr.toSeq(v, st, env)
 					}
 				}
@@ -774,6 +781,17 @@ func (fr *Frame) elaborate(si *specInfo) {
 	}
 	defer func() { curPkg = saved }()
 	si.ret = contractType(si.def.Ret)
+	if si.def.Body == "" {
+		// uninterpreted: declared, never defined
+		var sorts []string
+		for _, pr := range si.def.Params {
+			sorts = append(sorts, c.sortOf(contractType(pr[1])))
+		}
+		c.decls = append(c.decls, fmt.Sprintf("(declare-fun %s (%s) %s)", si.def.Name, strings.Join(sorts, " "), c.sortOf(si.ret)))
+		si.declared = true
+		si.busy = false
+		return
+	}
 	var body string
 	var decl, names, sorts []string
 	for iter := 0; iter < 6; iter++ {
